@@ -1,5 +1,5 @@
 import PoolProofs.C20Lemmas
-import PoolProofs.C08I2Lemmas
+import PoolProofs.C08I2Pres
 /-!
 # C20 — recovery restores a spendable account and never moves funds
 
@@ -205,6 +205,14 @@ theorem C20_sweep_terminates_and_resets (c i : Nat) (l : List Ans) :
       · obtain ⟨h1, h2⟩ := h
         have : ¬ c + 1 > Lifecycle.maxUnusedAccountKeyLookup := by omega
         simp [sweep, found, this, (ih (c + 1) (i + 1)).2 h2]
+
+/-- **C20 / derivation index**: after `AdvanceAccountDerivationIndex(maxIndex)` the wallet holds more keys than
+the highest recovered key index, so the next `DeriveNextKey` (a new account) cannot hand out a recovered
+account's key again; keys are never taken back. -/
+theorem C20_advance_past (count minIndex : Nat) :
+    advance count minIndex > minIndex ∧ advance count minIndex ≥ count := by
+  unfold advance
+  split <;> omega
 
 /-- the regenerated shape of the sweep loop the model was written against -/
 theorem C20_sweep_shape :
